@@ -4,6 +4,8 @@ use vmon::report::parse_args;
 mod c01;
 mod c02;
 mod c10;
+mod common;
+mod ops;
 
 fn main() {
     let args = parse_args();
